@@ -1988,7 +1988,8 @@ class UTPM(Ring, RawAlgorithmsMixIn):
         """ extracts the Jacobian from a UTPM instance
         if x.ndim == 1 it is equivalent to the gradient
         """
-        retval = x.data[1,...].transpose([i for i in range(1,x.data[1,...].ndim)] + [0])
+        # (a fresh array, like the other extractors: not a window into x)
+        retval = x.data[1,...].transpose([i for i in range(1,x.data[1,...].ndim)] + [0]).copy()
 
         # print 'x.data.dtype=',x.data.dtype
         # print 'x.data=',x.data
@@ -2031,7 +2032,7 @@ class UTPM(Ring, RawAlgorithmsMixIn):
         """ extracts the Jacobian vector product from a UTPM instance
         if x.ndim == 1 it is equivalent to the gradient
         """
-        return x.data[1,...].transpose([i for i in range(1,x.data[1,...].ndim)] + [0])[...,0]
+        return x.data[1,...].transpose([i for i in range(1,x.data[1,...].ndim)] + [0])[...,0].copy()
 
 
     @classmethod
